@@ -4,6 +4,7 @@ import (
 	"cmp"
 	"encoding/json"
 	"errors"
+	"fmt"
 	"reflect"
 	"sort"
 	"strings"
@@ -92,7 +93,16 @@ func unixMilliToTime(unixMilli int64) time.Time {
 	return time.Unix(0, unixMilli*int64(time.Millisecond))
 }
 
-func ParseCron(cronExp string) (cron.Schedule, error) {
+func ParseCron(cronExp string) (schedule cron.Schedule, err error) {
+	// the cron library panics on some malformed expressions (for example a
+	// "TZ=UTC" prefix that is not followed by a spec), report these as
+	// invalid expressions instead of crashing the caller
+	defer func() {
+		if r := recover(); r != nil {
+			schedule, err = nil, fmt.Errorf("invalid cron expression: %v", r)
+		}
+	}()
+
 	return cron.NewParser(cron.SecondOptional | cron.Minute | cron.Hour | cron.Dom | cron.Month | cron.Dow | cron.Descriptor).Parse(cronExp)
 }
 
